@@ -50,7 +50,7 @@ def exh_cases(ck, depth):
     return split_cases(p.stdout)
 
 
-MUTATING = ("free", "fchildren", "unlink", "steal", "move", "reparent", "realloc", "ref", "limit")
+MUTATING = ("free", "fchildren", "unlink", "steal", "move", "reparent", "realloc", "ref", "limit", "autofree")
 
 
 def nontrivial(c):
